@@ -24,8 +24,13 @@ func c14Program() *prog.Program {
 // @immutable
 type L struct{ F int }
 
+// LegacyOnly is test-only.
+// @testonly
+func LegacyOnly() {}
+
 func legacyBad(l *L) {
 	l.F = 1 // want IMM01 dep=d/legacy/l.go
+	LegacyOnly() // want TONL02 dep=d/legacy/l.go
 }
 `}, {Name: "l_test.go", Src: `package legacy
 
@@ -80,6 +85,7 @@ func genBad(g *G, x *T) {
 	g.F = 2 // want IMM01 dep=d/zz_gen.go
 	x.F = 2 // want IMM01 dep=d/x.go
 	_ = T{} // @ignore CTOR01
+	Helper() // want TONL02 dep=d/x.go
 }
 `},
 			{Name: "x_test.go", Src: `package d
@@ -166,6 +172,10 @@ import "ex.com/m/d"
 
 // Handle is an alias of a restricted type, declared in a generated file.
 type Handle = d.Tok // want PKGO01 dep=d/x.go
+
+func genUse() {
+	d.Helper() // want TONL02 dep=d/x.go
+}
 `},
 			{Name: "handle_use.go", Src: `package u
 
